@@ -1297,7 +1297,7 @@ type c07Mut struct {
 }
 
 var c07Repl = func(n uint32) []uint32 {
-	return []uint32{0, 1, n - 1, n + 1, 1<<31 - 1, 1<<32 - 1, 256 << 10, 256<<10 + 1}
+	return append([]uint32{0, 1, n - 1, n + 1, 1<<31 - 1, 1<<32 - 1, 256 << 10, 256<<10 + 1}, wrapValues()...)
 }
 
 var c07Garbage = [][]byte{
